@@ -259,158 +259,6 @@ func (w *World) prattFn() *FuncInfo {
 	return nil
 }
 
-// precedenceLookups returns the parser methods that look the given token
-// field up in the precedence table.
-func (w *World) precedenceLookup(field *types.Var) *FuncInfo {
-	info := w.Pkgs["parser"].TypesInfo
-	tv, _ := w.precedenceTable()
-	for _, f := range w.parserMethods() {
-		found := false
-		inspectBody(f.Decl.Body, false, func(n ast.Node) bool {
-			ix, ok := n.(*ast.IndexExpr)
-			if !ok || objOf(info, ix.X) != tv {
-				return true
-			}
-			// index is <recv>.<field>.Type
-			if x, tf := fieldOf(info, ix.Index); tf != nil && tf.Name() == "Type" {
-				if _, ff := fieldOf(info, x); ff == field {
-					found = true
-				}
-			}
-			return true
-		})
-		if found {
-			return f
-		}
-	}
-	return nil
-}
-
-func c06Pratt(r *Run) {
-	w := r.W
-	info := w.Pkgs["parser"].TypesInfo
-	pratt := w.prattFn()
-	cur, peek, adv := w.parserTokenFields()
-	if pratt == nil || cur == nil || peek == nil {
-		r.Lost("R3", "Pratt entry point / token fields of the parser")
-		return
-	}
-	peekPrec := w.precedenceLookup(peek)
-	curPrec := w.precedenceLookup(cur)
-	if peekPrec == nil || curPrec == nil || peekPrec == curPrec {
-		r.Lost("R3", "precedence lookups for the current and the peek token")
-		return
-	}
-	r.Ok("R3", peekPrec.Name(), "looks up "+peek.Name(), w.Pos(peekPrec.Decl.Pos()), "table[peek.Type]")
-	r.Ok("R3", curPrec.Name(), "looks up "+cur.Name(), w.Pos(curPrec.Decl.Pos()), "table[cur.Type]")
-	param := pratt.Obj.Type().(*types.Signature).Params().At(0)
-	// the loop
-	var loops []*ast.ForStmt
-	inspectBody(pratt.Decl.Body, true, func(n ast.Node) bool {
-		if f, ok := n.(*ast.ForStmt); ok {
-			loops = append(loops, f)
-		}
-		return true
-	})
-	okLoop := false
-	for _, l := range loops {
-		if l.Cond == nil {
-			continue
-		}
-		for _, cj := range conjuncts(l.Cond) {
-			be, ok := unparen(cj).(*ast.BinaryExpr)
-			if !ok {
-				continue
-			}
-			x, y, op := be.X, be.Y, be.Op
-			if isCallTo(info, x, peekPrec.Obj) { // mirrored form
-				x, y, op = y, x, flipOp(op)
-			}
-			if !isCallTo(info, y, peekPrec.Obj) {
-				continue
-			}
-			if objOf(info, x) != param {
-				r.Bad("R3", pratt.Name(), "loop "+short(w.Fset, l.Cond), w.Pos(l.Pos()), "the Pratt loop does not compare its own precedence parameter with the peek precedence")
-				okLoop = true
-				continue
-			}
-			okLoop = true
-			if op == token.LSS {
-				r.Ok("R3", pratt.Name(), "loop "+short(w.Fset, cj), w.Pos(l.Pos()), "strict <: equal level ends the right operand (left associative)")
-			} else {
-				r.Bad("R3", pratt.Name(), "loop "+short(w.Fset, cj), w.Pos(l.Pos()),
-					"the Pratt loop must continue only while precedence < peekPrecedence() (strict); '"+op.String()+"' changes associativity")
-			}
-		}
-	}
-	if !okLoop {
-		r.Lost("R3", "Pratt loop comparing the precedence parameter with the peek precedence")
-	}
-	// infix parser recursion
-	infix := w.registeredFn("+", true)
-	if infix == nil {
-		r.Lost("R3", "infix parse function registered for '+'")
-		return
-	}
-	for _, g := range c06Groups {
-		for _, op := range g {
-			if f := w.registeredFn(op, true); f == nil || f.Obj != infix.Obj {
-				r.Bad("R3", "parser.newParser", "infix function for "+op, w.Pos(infix.Decl.Pos()), "binary operators are not all parsed by the same infix function")
-			}
-		}
-	}
-	var recCall *ast.CallExpr
-	for _, c := range callsIn(infix.Decl.Body, false) {
-		if calleeOf(info, c) == pratt.Obj {
-			recCall = c
-		}
-	}
-	if recCall == nil || len(recCall.Args) != 1 {
-		r.Lost("R3", "recursive call of the Pratt entry in the infix parser")
-		return
-	}
-	arg := unparen(recCall.Args[0])
-	argObj := objOf(info, arg)
-	okRec := false
-	if argObj != nil {
-		// single definition: v := p.curPrecedence(), located before the advance call
-		var def *ast.AssignStmt
-		ndefs := 0
-		var advPos token.Pos
-		inspectBody(infix.Decl.Body, false, func(n ast.Node) bool {
-			switch s := n.(type) {
-			case *ast.AssignStmt:
-				for i, l := range s.Lhs {
-					if objOf(info, l) == argObj {
-						ndefs++
-						if len(s.Rhs) == len(s.Lhs) && isCallTo(info, s.Rhs[i], curPrec.Obj) {
-							def = s
-						}
-					}
-				}
-			case *ast.IncDecStmt:
-				if objOf(info, s.X) == argObj {
-					ndefs++
-				}
-			case *ast.CallExpr:
-				if adv != nil && calleeOf(info, s) == adv.Obj && !advPos.IsValid() {
-					advPos = s.Pos()
-				}
-			}
-			return true
-		})
-		if def != nil && ndefs == 1 && advPos.IsValid() && def.Pos() < advPos && advPos < recCall.Pos() {
-			okRec = true
-		}
-	}
-	if okRec {
-		r.Ok("R3", infix.Name(), "recursion "+short(w.Fset, recCall), w.Pos(recCall.Pos()), "right operand parsed at the operator's own level, read before advancing")
-	} else {
-		r.Bad("R3", infix.Name(), "recursion "+short(w.Fset, recCall), w.Pos(recCall.Pos()),
-			"the infix parser must parse its right operand at exactly the current operator's level (a local assigned once from the current-token precedence lookup before the token cursor advances)")
-	}
-}
-
 func conjuncts(e ast.Expr) []ast.Expr {
 	e = unparen(e)
 	if be, ok := e.(*ast.BinaryExpr); ok && be.Op == token.LAND {
@@ -481,493 +329,4 @@ func (w *World) operatorTables() (tabs []opTable, infixEval *FuncInfo) {
 	return
 }
 
-func c06OperatorTables(r *Run) {
-	w := r.W
-	info := w.Pkgs[""].TypesInfo
-	tabs, infixEval := w.operatorTables()
-	if infixEval == nil || len(tabs) < 5 {
-		r.Lost("R4", "infix evaluator and its per-type operator functions")
-		return
-	}
-	truthy := w.truthyMethod()
-	want := map[string][]string{
-		"int":    {"+", "-", "*", "/", "<", ">", "<=", ">=", "==", "!="},
-		"float":  {"+", "-", "*", "/", "<", ">", "<=", ">=", "==", "!="},
-		"string": {"+", "<", ">", "<=", ">=", "==", "!=", "~="},
-	}
-	kindsSeen := map[string]bool{}
-	for _, t := range tabs {
-		if t.kind == "" {
-			// classify the interface-typed tables by their labels below
-		}
-		var sw *ast.SwitchStmt
-		for _, st := range t.fn.Decl.Body.List {
-			if s, ok := st.(*ast.SwitchStmt); ok && objOf(info, s.Tag) == t.op {
-				sw = s
-			}
-		}
-		if sw == nil {
-			r.Bad("R4", t.fn.Name(), "no switch on the operator parameter", w.Pos(t.fn.Decl.Pos()), "operator function does not dispatch on its operator parameter with a switch; the label/operator agreement cannot be read")
-			continue
-		}
-		if t.kind == "" && !anyArmBinary(info, sw) {
-			// not a table over the property's operand kinds (e.g. the slice
-			// append operator): outside R4
-			r.Note("operator function %s is not a label->binary-expression table; outside R4", t.fn.Name())
-			continue
-		}
-		kindsSeen[t.kind] = true
-		// operand identities: l, r, or single-assignment locals derived from them
-		lObjs := map[types.Object]string{t.l: "l"}
-		rObjs := map[types.Object]string{t.r: "r"}
-		for _, st := range t.fn.Decl.Body.List {
-			as, ok := st.(*ast.AssignStmt)
-			if !ok || as.Tok != token.DEFINE || len(as.Lhs) != 1 || len(as.Rhs) != 1 {
-				continue
-			}
-			call, ok := as.Rhs[0].(*ast.CallExpr)
-			if !ok || len(call.Args) != 1 {
-				continue
-			}
-			cal := calleeOf(info, call)
-			derived := funcIs(cal, "fmt", "Sprint") || (truthy != nil && cal == truthy.Obj)
-			if !derived {
-				continue
-			}
-			src := objOf(info, call.Args[0])
-			o := objOf(info, as.Lhs[0])
-			if src == t.l {
-				lObjs[o] = "f(l)"
-			} else if src == t.r {
-				rObjs[o] = "f(r)"
-			}
-		}
-		seenLabels := map[string]bool{}
-		hasDefaultErr := false
-		for _, cs := range sw.Body.List {
-			cc := cs.(*ast.CaseClause)
-			if cc.List == nil {
-				hasDefaultErr = clauseReturnsError(info, cc.Body)
-				if !hasDefaultErr {
-					r.Bad("R4", t.fn.Name(), "default arm", w.Pos(cc.Pos()), "unknown operator must be an error")
-				}
-				continue
-			}
-			for _, le := range cc.List {
-				label, ok := constString(info, le)
-				if !ok {
-					r.Bad("R4", t.fn.Name(), "label "+short(w.Fset, le), w.Pos(le.Pos()), "operator label is not a constant")
-					continue
-				}
-				seenLabels[label] = true
-				c06CheckArm(r, t, label, cc, lObjs, rObjs)
-			}
-		}
-		if !hasDefaultErr {
-			// fall-through return after the switch
-			rets := returnsIn(t.fn.Decl.Body)
-			ok := false
-			if len(rets) > 0 {
-				last := rets[len(rets)-1]
-				if last.Pos() > sw.End() && len(last.Results) == 2 && isNilIdent(info, last.Results[0]) && !isNilIdent(info, last.Results[1]) {
-					ok = true
-				}
-			}
-			if ok {
-				r.Ok("R4", t.fn.Name(), "fall-through is an error", w.Pos(sw.End()), "return nil, <error>")
-			} else {
-				r.Bad("R4", t.fn.Name(), "fall-through", w.Pos(sw.End()), "an operator the table does not know must yield an error")
-			}
-		} else {
-			r.Ok("R4", t.fn.Name(), "default arm is an error", w.Pos(sw.Pos()), "default: return nil, <error>")
-		}
-		if wl, ok := want[t.kind]; ok {
-			for _, l := range wl {
-				if !seenLabels[l] {
-					r.Bad("R4", t.fn.Name(), "missing label "+l, w.Pos(sw.Pos()), "operator "+l+" is not handled for "+t.kind+" operands")
-				}
-			}
-		}
-	}
-	for _, k := range []string{"int", "float", "string"} {
-		if !kindsSeen[k] {
-			r.Lost("R4", "operator function for "+k+" operands")
-		}
-	}
-	// dispatch: every call of an operator function from the infix evaluator
-	// passes (left-derived, right-derived, node.Operator) in that order
-	c06Dispatch(r, tabs, infixEval)
-}
-
-func clauseReturnsError(info *types.Info, body []ast.Stmt) bool {
-	if len(body) == 0 {
-		return false
-	}
-	ret, ok := body[len(body)-1].(*ast.ReturnStmt)
-	return ok && len(ret.Results) == 2 && isNilIdent(info, ret.Results[0]) && !isNilIdent(info, ret.Results[1])
-}
-
-func c06CheckArm(r *Run, t opTable, label string, cc *ast.CaseClause, lObjs, rObjs map[types.Object]string) {
-	w := r.W
-	info := w.Pkgs[""].TypesInfo
-	fn := t.fn.Name()
-	construct := fmt.Sprintf("case %q", label)
-	if len(cc.Body) == 0 {
-		r.Bad("R4", fn, construct, w.Pos(cc.Pos()), "empty arm")
-		return
-	}
-	last, ok := cc.Body[len(cc.Body)-1].(*ast.ReturnStmt)
-	if !ok || len(last.Results) != 2 {
-		r.Bad("R4", fn, construct, w.Pos(cc.Pos()), "arm does not end in 'return <value>, nil'")
-		return
-	}
-	if !isNilIdent(info, last.Results[1]) {
-		r.Bad("R4", fn, construct, w.Pos(last.Pos()), "arm's final return carries an error")
-		return
-	}
-	if label == "~=" {
-		// x, err := regexp.Compile(<right>); ...; return x.MatchString(<left>), nil
-		call, ok := unparen(last.Results[0]).(*ast.CallExpr)
-		good := false
-		if ok && len(call.Args) == 1 {
-			if cal := calleeOf(info, call); methodIs(cal, "regexp", "Regexp", "MatchString") {
-				if _, isL := lObjs[objOf(info, call.Args[0])]; isL {
-					// the pattern must come from the right operand
-					for _, st := range cc.Body {
-						if as, ok := st.(*ast.AssignStmt); ok && len(as.Rhs) == 1 {
-							if cc2, ok := as.Rhs[0].(*ast.CallExpr); ok && len(cc2.Args) == 1 {
-								if c2 := calleeOf(info, cc2); funcIs(c2, "regexp", "Compile") || funcIs(c2, "regexp", "MustCompile") {
-									if _, isR := rObjs[objOf(info, cc2.Args[0])]; isR {
-										good = true
-									}
-								}
-							}
-						}
-					}
-				}
-			}
-		}
-		if good {
-			r.Ok("R4", fn, construct, w.Pos(last.Pos()), "regexp.Compile(right).MatchString(left)")
-		} else {
-			r.Bad("R4", fn, construct, w.Pos(last.Pos()), "~= must compile the RIGHT operand as pattern and match the LEFT operand")
-		}
-		return
-	}
-	goOp, known := goOpFor[label]
-	if !known {
-		r.Bad("R4", fn, construct, w.Pos(cc.Pos()), "label is not an operator of the language")
-		return
-	}
-	be, ok := unparen(last.Results[0]).(*ast.BinaryExpr)
-	if !ok {
-		r.Bad("R4", fn, construct+" returns "+short(w.Fset, last.Results[0]), w.Pos(last.Pos()), "arm must return the Go binary expression for its label")
-		return
-	}
-	_, lx := lObjs[objOf(info, be.X)]
-	_, ry := rObjs[objOf(info, be.Y)]
-	if be.Op != goOp {
-		if t.kind == "" && label == "+" && be.Op == token.LAND {
-			// bool + bool is defined as logical and by this table; outside the property's operand kinds
-			r.Ok("R4", fn, construct, w.Pos(last.Pos()), "bool '+' = and (not an operator the property defines on bools)")
-			return
-		}
-		r.Bad("R4", fn, construct+" returns "+short(w.Fset, be), w.Pos(last.Pos()),
-			fmt.Sprintf("label %q but Go operator %q", label, be.Op.String()))
-		return
-	}
-	if !lx || !ry {
-		r.Bad("R4", fn, construct+" returns "+short(w.Fset, be), w.Pos(last.Pos()), "operands must be (left, right) in parameter order")
-		return
-	}
-	if label == "/" && (t.kind == "int" || t.kind == "float") {
-		// zero-divisor guard: an earlier statement 'if r == 0 { return nil, err }'
-		guard := false
-		for _, st := range cc.Body[:len(cc.Body)-1] {
-			ifs, ok := st.(*ast.IfStmt)
-			if !ok || ifs.Init != nil || ifs.Else != nil {
-				continue
-			}
-			c, ok := unparen(ifs.Cond).(*ast.BinaryExpr)
-			if !ok || c.Op != token.EQL {
-				continue
-			}
-			x, y := c.X, c.Y
-			if _, isR := rObjs[objOf(info, x)]; !isR {
-				x, y = y, x
-			}
-			_, isR := rObjs[objOf(info, x)]
-			tv := info.Types[y]
-			isZero := tv.Value != nil && (tv.Value.ExactString() == "0")
-			if isR && isZero && clauseReturnsError(info, ifs.Body.List) {
-				guard = true
-			}
-		}
-		if !guard {
-			r.Bad("R4", fn, construct+" zero divisor", w.Pos(last.Pos()), "division must be dominated by 'if r == 0 { return nil, error }'")
-			return
-		}
-	}
-	r.Ok("R4", fn, construct, w.Pos(last.Pos()), "returns l "+be.Op.String()+" r")
-}
-
-func c06Dispatch(r *Run, tabs []opTable, infixEval *FuncInfo) {
-	w := r.W
-	info := w.Pkgs[""].TypesInfo
-	isTab := map[*types.Func]bool{}
-	for _, t := range tabs {
-		isTab[t.fn.Obj] = true
-	}
-	nodeParam := infixEval.Obj.Type().(*types.Signature).Params().At(0)
-	lroots, rroots := infixOperandRoots(w, infixEval)
-	if lroots == nil {
-		r.Lost("R4", "left/right operand evaluations in the infix evaluator")
-		return
-	}
-	for _, c := range callsIn(infixEval.Decl.Body, false) {
-		cal := calleeOf(info, c)
-		if !isTab[cal] || len(c.Args) != 3 {
-			continue
-		}
-		okL := derivesFrom(info, infixEval.Decl.Body, c.Args[0], lroots)
-		okR := derivesFrom(info, infixEval.Decl.Body, c.Args[1], rroots)
-		okOp := false
-		if x, f := fieldOf(info, c.Args[2]); f != nil && f.Name() == "Operator" && objOf(info, x) == nodeParam {
-			okOp = true
-		}
-		con := "dispatch " + short(w.Fset, c)
-		if okL && okR && okOp {
-			r.Ok("R4", infixEval.Name(), con, w.Pos(c.Pos()), "(left, right, node.Operator)")
-		} else {
-			r.Bad("R4", infixEval.Name(), con, w.Pos(c.Pos()), "operator function must receive (left value, right value, the node's operator) in this order")
-		}
-	}
-}
-
-// infixOperandRoots finds the variables that hold the evaluated left and right operand.
-func infixOperandRoots(w *World, f *FuncInfo) (l, r map[types.Object]bool) {
-	info := w.Pkgs[""].TypesInfo
-	nodeParam := f.Obj.Type().(*types.Signature).Params().At(0)
-	l, r = map[types.Object]bool{}, map[types.Object]bool{}
-	inspectBody(f.Decl.Body, true, func(n ast.Node) bool {
-		as, ok := n.(*ast.AssignStmt)
-		if !ok || len(as.Rhs) != 1 || len(as.Lhs) < 1 {
-			return true
-		}
-		call, ok := as.Rhs[0].(*ast.CallExpr)
-		if !ok || len(call.Args) != 1 {
-			return true
-		}
-		x, fld := fieldOf(info, call.Args[0])
-		if fld == nil || objOf(info, x) != nodeParam {
-			return true
-		}
-		switch fld.Name() {
-		case "Left":
-			l[objOf(info, as.Lhs[0])] = true
-		case "Right":
-			r[objOf(info, as.Lhs[0])] = true
-		}
-		return true
-	})
-	if len(l) == 0 || len(r) == 0 {
-		return nil, nil
-	}
-	return
-}
-
-// derivesFrom: e is a root variable, or a conversion of one, or a variable
-// bound from a root by a type switch / comma-ok assertion / conversion.
-func derivesFrom(info *types.Info, body ast.Node, e ast.Expr, roots map[types.Object]bool) bool {
-	e = unparen(e)
-	if c, ok := e.(*ast.CallExpr); ok && len(c.Args) == 1 {
-		if _, isConv := isConversion(info, c); isConv {
-			return derivesFrom(info, body, c.Args[0], roots)
-		}
-	}
-	o := objOf(info, e)
-	if o == nil {
-		if id, ok := e.(*ast.Ident); ok {
-			// implicit object of a type-switch clause
-			o = info.Uses[id]
-		}
-	}
-	if o == nil {
-		return false
-	}
-	if roots[o] {
-		return true
-	}
-	found := false
-	ast.Inspect(body, func(n ast.Node) bool {
-		switch s := n.(type) {
-		case *ast.TypeSwitchStmt:
-			as, ok := s.Assign.(*ast.AssignStmt)
-			if !ok || len(as.Rhs) != 1 {
-				return true
-			}
-			ta, ok := as.Rhs[0].(*ast.TypeAssertExpr)
-			if !ok || !roots[objOf(info, ta.X)] {
-				return true
-			}
-			for _, cl := range s.Body.List {
-				if info.Implicits[cl] == o {
-					found = true
-				}
-			}
-		case *ast.AssignStmt:
-			if len(s.Rhs) == 1 && len(s.Lhs) >= 1 && objOf(info, s.Lhs[0]) == o {
-				if ta, ok := s.Rhs[0].(*ast.TypeAssertExpr); ok && roots[objOf(info, ta.X)] {
-					found = true
-				}
-			}
-		}
-		return true
-	})
-	return found
-}
-
 // ---- R5 ---------------------------------------------------------------------
-
-func c06ShortCircuit(r *Run) {
-	w := r.W
-	info := w.Pkgs[""].TypesInfo
-	f := w.evalMethod("InfixExpression")
-	truthy := w.truthyMethod()
-	if f == nil || truthy == nil {
-		r.Lost("R5", "infix evaluator / truthiness predicate")
-		return
-	}
-	nodeParam := f.Obj.Type().(*types.Signature).Params().At(0)
-	lroots, _ := infixOperandRoots(w, f)
-	// position of the right operand evaluation among the top-level statements
-	idx := -1
-	for i, st := range f.Decl.Body.List {
-		found := false
-		inspectBody(st, true, func(n ast.Node) bool {
-			if c, ok := n.(*ast.CallExpr); ok && len(c.Args) == 1 {
-				if x, fld := fieldOf(info, c.Args[0]); fld != nil && fld.Name() == "Right" && objOf(info, x) == nodeParam {
-					found = true
-				}
-			}
-			return true
-		})
-		if found {
-			if idx >= 0 {
-				r.Bad("R5", f.Name(), "second evaluation of node.Right", w.Pos(st.Pos()), "the right operand is evaluated more than once")
-			} else {
-				idx = i
-			}
-		}
-	}
-	if idx < 0 {
-		r.Lost("R5", "evaluation of node.Right as a top-level statement of the infix evaluator")
-		return
-	}
-	// collect guards before idx: (cond, body) pairs from if statements and tagless switch clauses
-	type guard struct {
-		cond ast.Expr
-		body []ast.Stmt
-		pos  token.Pos
-	}
-	var guards []guard
-	for _, st := range f.Decl.Body.List[:idx] {
-		switch s := st.(type) {
-		case *ast.IfStmt:
-			if s.Init == nil && s.Else == nil {
-				guards = append(guards, guard{s.Cond, s.Body.List, s.Pos()})
-			}
-		case *ast.SwitchStmt:
-			if s.Tag == nil && s.Init == nil {
-				for _, c := range s.Body.List {
-					cc := c.(*ast.CaseClause)
-					for _, e := range cc.List {
-						guards = append(guards, guard{e, cc.Body, cc.Pos()})
-					}
-				}
-			}
-		}
-	}
-	need := map[string]bool{"&&": false, "||": false}
-	for _, g := range guards {
-		cj := conjuncts(g.cond)
-		if len(cj) != 2 {
-			continue
-		}
-		var op string
-		var tr ast.Expr
-		for _, e := range cj {
-			if be, ok := unparen(e).(*ast.BinaryExpr); ok && be.Op == token.EQL {
-				x, y := be.X, be.Y
-				if _, isC := constString(info, x); isC {
-					x, y = y, x
-				}
-				if xx, fld := fieldOf(info, x); fld != nil && fld.Name() == "Operator" && objOf(info, xx) == nodeParam {
-					if s, ok := constString(info, y); ok {
-						op = s
-						continue
-					}
-				}
-			}
-			tr = e
-		}
-		if op != "&&" && op != "||" || tr == nil {
-			continue
-		}
-		neg := false
-		if u, ok := unparen(tr).(*ast.UnaryExpr); ok && u.Op == token.NOT {
-			neg = true
-			tr = u.X
-		}
-		call, ok := unparen(tr).(*ast.CallExpr)
-		if !ok || calleeOf(info, call) != truthy.Obj || len(call.Args) != 1 || !lroots[objOf(info, call.Args[0])] {
-			continue
-		}
-		// body: return <const bool>, nil
-		if len(g.body) != 1 {
-			continue
-		}
-		ret, ok := g.body[0].(*ast.ReturnStmt)
-		if !ok || len(ret.Results) != 2 || !isNilIdent(info, ret.Results[1]) {
-			continue
-		}
-		tv := info.Types[ret.Results[0]]
-		if tv.Value == nil {
-			continue
-		}
-		val := tv.Value.ExactString()
-		con := fmt.Sprintf("%s with %struthy left returns %s", op, map[bool]string{true: "non-", false: ""}[neg], val)
-		switch {
-		case op == "&&" && neg && val == "false", op == "||" && !neg && val == "true":
-			need[op] = true
-			r.Ok("R5", f.Name(), con, w.Pos(g.pos), "dominates the evaluation of node.Right")
-		default:
-			r.Bad("R5", f.Name(), con, w.Pos(g.pos), "short-circuit arm returns the wrong constant or tests the wrong polarity")
-		}
-	}
-	for _, op := range []string{"&&", "||"} {
-		if !need[op] {
-			r.Bad("R5", f.Name(), "no short-circuit for "+op+" before node.Right is evaluated", w.Pos(f.Decl.Body.List[idx].Pos()),
-				"the right operand of "+op+" is evaluated although the left operand already decides the result")
-		}
-	}
-}
-
-// anyArmBinary: some labelled arm of the switch ends in 'return <binary expr>, nil'
-// (this is what makes a function an operator table in the sense of R4).
-func anyArmBinary(info *types.Info, sw *ast.SwitchStmt) bool {
-	for _, cs := range sw.Body.List {
-		cc := cs.(*ast.CaseClause)
-		if cc.List == nil || len(cc.Body) == 0 {
-			continue
-		}
-		ret, ok := cc.Body[len(cc.Body)-1].(*ast.ReturnStmt)
-		if !ok || len(ret.Results) != 2 {
-			continue
-		}
-		if _, ok := unparen(ret.Results[0]).(*ast.BinaryExpr); ok {
-			return true
-		}
-	}
-	return false
-}
